@@ -257,6 +257,11 @@ def load_strictness(ctx, rep, rule: str) -> None:
                     d = dflt.get(fname)
                     ok = ok and isinstance(d, ast.Constant) and d.value is True and any(isinstance(s, ast.Raise) for s in fif.body)
                 leaf_skip = any(isinstance(s, ast.If) and "flatten(" in _norm(s.test) for s in t.body)
+                if not raises and all(isinstance(s, (ast.Continue, ast.Pass)) for s in t.body) and ("new_state" in _norm(c) or "to_load" in _norm(c)):
+                    # the loop spelling of the silent filter `… for k, v in old.items() if k in new_state` — the same finding, the same key
+                    pos = ast.Compare(left=c.left, ops=[ast.In()], comparators=c.comparators)
+                    rep.ob(rule, f"silent-skip:{short(fi.qual)}:{_norm(pos)}", False, fi.loc(t), f"entries of the current state whose key is not in the loaded state are skipped silently (`if {_norm(c)}: continue`, no raising alternative): a checkpoint lacking e.g. inv_factor_matrices loads 'successfully' and resumes with zero roots")
+                    continue
                 rep.ob(rule, f"missing-key-raises:{short(fi.qual)}:{_norm(c)}", ok, fi.loc(t), f"`if {_norm(c)}` must raise with default flags ({[_norm(r.exc.func) if isinstance(r.exc, ast.Call) else _norm(r.exc) for r in raises]})" + ("; leaf-less values are exempt (C09.4)" if leaf_skip else ""), sample=True)
         # (b) `if key in new_state` filters without a raising alternative: silent skip
         for comp in [x for x in ast.walk(fi.node) if isinstance(x, (ast.DictComp, ast.ListComp, ast.GeneratorExp, ast.SetComp))]:
